@@ -1,5 +1,6 @@
 import GomlVerif.Model.ParserFuel
 import GomlVerif.Lemmas.GrammarStep
+import GomlVerif.Gen.MatchDispatch
 /-!
 # C04 — the logic that is supposed to keep the parser from hanging
 
@@ -591,3 +592,59 @@ theorem file_consumes_all_tokens_partial (toks : List Nat) (h : (parseItems toks
   omega
 
 end Goml.Grammar
+/-! ## the match compiler's partial dispatch is only reached at types it has a case for
+
+`compile_match.rs::compile_rows` dispatches on the type of the first column whose pattern is neither a
+variable nor a wildcard; nine of the 24 variants of `tast::Ty` end in `panic!` / `unreachable!`
+(`Gen/MatchDispatch.lean`, regenerated from `compile_rows`, with the shape of `move_variable_patterns` and
+`branch_variable` asserted). Whether a *literal* pattern can carry such a type is decided in
+`typer/check.rs`: each `check_pat_*` for a literal equates the scrutinee's type with a fixed set of types, on
+every path and before anything is solved (the extractor asserts "on every path": the constraint is pushed
+at brace depth 0 of the function). The theorems below are about these two regenerated tables; the typer's
+solver (`TypeEqual` really forces equality: C03 `Lemmas/UnifyShape`, `Props/C03`) and the constructor /
+tuple patterns (whose types come from the environment) are outside them and are *searched* by the stream
+`pat-scrut` (`harness/src/patcat.rs`). -/
+namespace Goml.MatchDispatch
+open Goml.Gen.MatchDispatch
+
+/-- does `compile_rows` compile a case for a branch variable of this type variant? -/
+def hasCase (t : String) : Bool := (matchCase.lookup t).isSome
+
+/-- does `compile_rows` panic for a branch variable of this type variant? -/
+def panics (t : String) : Bool := (matchNoCase.lookup t).isSome
+
+/-- **match_dispatch_partitions_ty**: every variant of `tast::Ty` is in exactly one of the two tables (so
+"has no case" is the same as "panics"), and the tables name nothing else -/
+theorem match_dispatch_partitions_ty :
+    (∀ t ∈ tyVariants, hasCase t = !panics t) ∧
+    (∀ p ∈ matchCase, p.1 ∈ tyVariants) ∧ (∀ p ∈ matchNoCase, p.1 ∈ tyVariants) := by decide
+
+/-- **literal_pattern_type_has_match_case**: every type the typer can equate the scrutinee of a literal
+pattern (unit, bool, string, unsuffixed or suffixed integer) with is a type `compile_rows` compiles a
+case for — so a literal pattern column never reaches one of its `panic!` arms, provided the equation is
+solved or reported (C03) -/
+theorem literal_pattern_type_has_match_case :
+    ∀ f ∈ literalPatternTys, ∀ t ∈ f.2, hasCase t = true := by decide
+
+/-- **literal_pattern_types_are_ty_variants**: the typer's table names variants of `tast::Ty` only, and
+every literal-pattern checker has at least one admissible type (the theorem above is not vacuous) -/
+theorem literal_pattern_types_are_ty_variants :
+    (∀ f ∈ literalPatternTys, f.2 ≠ [] ∧ ∀ t ∈ f.2, t ∈ tyVariants) ∧ literalPatternTys.length = 5 := by decide
+
+/-- **float_pattern_would_panic**: the float types have no case and are disjoint from the integer types:
+the typer's `is_integer_ty` (not `is_numeric_ty`) is what keeps an integer literal pattern away from the
+`Matching on floating point types is not supported` arm -/
+theorem float_pattern_would_panic :
+    (∀ t ∈ floatTys, panics t = true) ∧ (∀ t ∈ floatTys, t ∉ integerTys) ∧ floatTys ≠ [] ∧
+    (∀ t ∈ integerTys, hasCase t = true) := by decide
+
+/-- **unsuffixed_int_pattern_default_has_case**: the fallback type of an unsuffixed integer pattern
+(`integer_literal_target(ty).unwrap_or(int32)`; the extractor asserts the literal `TInt32` and that it is an
+`is_integer_ty` type) has a case -/
+theorem unsuffixed_int_pattern_default_has_case : "TInt32" ∈ integerTys ∧ hasCase "TInt32" = true := by decide
+
+-- non-vacuity of the tables: the dispatch has both kinds of arm, and a literal checker with several types
+example : hasCase "TString" = true ∧ panics "TFloat64" = true ∧ panics "TVec" = true := by decide
+example : (literalPatternTys.lookup "check_pat_int").map List.length = some 8 := by decide
+
+end Goml.MatchDispatch
